@@ -1,7 +1,9 @@
-\* Project.tla as the PINNED TREE behaves (Dev = all named deviations): prints every labelled edge of
-\* the projected state graph (-workers 1) for replay into the real generator (quick tier).
-\* 2 resolver fields (Query.f1, T.g) x 2 schema files x 3 edit records x 2 helper tokens x 5 import
-\* tokens x both resolver layouts x histories <= 4.  Measured: see notes/C19.md.
+\* Project.tla as the PINNED TREE behaves (Dev = all named deviations): prints every labelled edge of the
+\* projected state graph (-workers 1, ACTION_CONSTRAINT EmitEdge, CONSTRAINT EmitInit) for replay into the real
+\* generator; quick tier of C19. 2 resolver fields (Query.f1, T.g) x 2 schema files x 2 edit records (b1 + directive
+\* doc + named / b2c) x helper {hc} x imports {alias, asfx, arsv} used by f1 x both resolver layouts, start = generated
+\* project with both fields in a.graphqls, histories <= 3.
+\* Measured: 1 104 states, 2 709 edges (212 Generate edges), 6 s.
 INIT Init
 NEXT Next
 CONSTANTS
